@@ -53,6 +53,12 @@ CHECKS.update({
  "C09": ("exploration","grammar-based and mutated request bodies + reference model of the JSON-RPC 2.0 reply rules, handler counters",
    "Bodies from a JSON-RPC grammar (single/batch/empty/padded; ten element kinds; ids of every JSON type incl. fractions and exponent spellings; params absent/null/[]/object), byte-level mutations, an exhaustive sub-run over all batches of length <=3 (quick) / <=4 (thorough) of six element kinds, and the same element stream as ws frames; strict structural checks (exactly one JSON value, jsonrpc 2.0, id present, result XOR error), id echo by JSON type and value, the four named codes, 'handler ran iff valid', one response per valid-id ws frame and none for notifications. The model is deliberately weaker than the library wherever the statement is silent.",
    "Grammar-built requests use canonical member names once; mutated bodies that stay valid JSON are judged structurally only; HTTP status is recorded, not judged.","2/C09"),
+ "C10": ("exploration","attacker process vs host process: exhaustive hostile single-frame grid, seeded sequences, exit-status + probe oracle",
+   "The endpoint under attack lives in its own process. Server: the complete single-frame grid (7 methods incl. the xrpc.* built-ins and responses x 186 params shapes x 8 id types = 10 416 frames), seeded 2-6 frame sequences (in-flight ids, live channels, binary/empty/mutated frames); after every hostile input a token-echo probe on the same connection and per chunk on a fresh one; host exit status and stderr are the crash oracle. Mirror: a fake server feeds the grid to a real client in a host process (crash only). HTTP: size limits L in {1..1 MiB} with bodies of exactly L-1, L, L+1 bytes and a handler counter; mutated bodies.",
+   "No unbounded frame sizes; WebSocket-level protocol violations are not part of the alphabet.","2/C10"),
+ "C11": ("exploration","generated error values x registration tables + reference model from the statement",
+   "Eleven error kinds (nil, plain, wrapped, registered plain value/pointer, marshalable in pointer and value form, three codec types incl. a failing one) x messages from a valid-UTF-8 pool x six registration tables x {error, (value,error)} x {ws,http,custom}; the model decides nil/non-nil, zero value, generic vs exact registered type, message/code preservation and content equality for types that carry content by contract; a client panic is caught and reported.",
+   "Plain struct errors are only required to arrive with the right type and code; same code/different client type accepts any non-nil error.","2/C11"),
 })
 NA={}
 def main():
